@@ -10,6 +10,10 @@
 //!   tri.outline x1 y1 x2 y2 x3 y3
 //!       -> px=<points of into_styled(PrimitiveStyle::with_stroke(c, 1)).pixels() in iteration order,
 //!          pts_digest format> n=<number of distinct pixels>
+//!   tri.outline_al x1 y1 x2 y2 x3 y3 a      (C19; a = 0 Inside, 1 Center, 2 Outside)
+//!       -> the same for stroke width 1 with `stroke_alignment(a)`; model
+//!          `Triangle.outlinePixelsAligned` (lean/EG/Model/TriangleAligned.lean); same oracle
+//!          `C19:tri-outline` (counters `tri:outline-al-inside/center/outside`)
 //!   tri.pair ax ay bx by cx cy dx dy      (triangles (a,b,c) and (a,c,d): they share the edge a-c)
 //!       -> p1=<points() of (a,b,c)> p2=<points() of (a,c,d)>   (pts_digest format)
 //!   tri.draw x1 y1 x2 y2 x3 y3 kind bx by bw bh      (C19 only; kind 0 = fill only, 1 = 1-px stroke only)
@@ -60,7 +64,7 @@ use crate::m_line::pts_digest;
 use embedded_graphics::{
     pixelcolor::{BinaryColor, Rgb565},
     prelude::*,
-    primitives::{ContainsPoint, Line, PrimitiveStyle, Rectangle, Triangle},
+    primitives::{ContainsPoint, Line, PrimitiveStyle, PrimitiveStyleBuilder, Rectangle, StrokeAlignment, Triangle},
 };
 use std::collections::HashSet;
 
@@ -269,12 +273,27 @@ fn exec_outline(op: &str, t: &mut Toks, ctx: &mut Ctx) -> String {
     if cross(v[0], v[1], v[2]) != 0 {
         ctx.nontrivial(op);
     }
-    let px: Vec<Point> = tri_of(&v)
-        .into_styled(PrimitiveStyle::with_stroke(BinaryColor::On, 1))
-        .pixels()
-        .take(CAP)
-        .map(|p| p.0)
-        .collect();
+    // `tri.outline_al` carries the stroke alignment as a seventh token
+    let style = if op.starts_with("tri.outline_al ") {
+        let a = t.u32();
+        ctx.count(match a {
+            0 => "tri:outline-al-inside",
+            1 => "tri:outline-al-center",
+            _ => "tri:outline-al-outside",
+        });
+        PrimitiveStyleBuilder::new()
+            .stroke_color(BinaryColor::On)
+            .stroke_width(1)
+            .stroke_alignment(match a {
+                0 => StrokeAlignment::Inside,
+                1 => StrokeAlignment::Center,
+                _ => StrokeAlignment::Outside,
+            })
+            .build()
+    } else {
+        PrimitiveStyle::with_stroke(BinaryColor::On, 1)
+    };
+    let px: Vec<Point> = tri_of(&v).into_styled(style).pixels().take(CAP).map(|p| p.0).collect();
     let set = set_of(&px);
     let line = |a: P, b: P| -> Vec<Point> { Line::new(pt(a), pt(b)).points().collect() };
     let edges = [(v[0], v[1]), (v[1], v[2]), (v[2], v[0])];
@@ -439,6 +458,8 @@ impl Module for M {
          (quick 2000 points / 600 outlines, thorough 50000 / 10000); every tri.points op also evaluates all 6 vertex orders. \
          tri.pair: all quadrilaterals a,b,c,d on a 4x4 grid with a < c (index order), split along a-c, plus random ones \
          (quick 600, thorough 20000). C05: the same tri.points ops (the same grids and the same number of random ones). \
+         tri.outline_al (C19): the 1-px outline with Inside and Outside alignment on ALL ordered triples of the unit grid, with \
+         all three alignments in turn on every 4th ordered triple of the stretched grid and on random triangles (quick 600, thorough 10000). \
          Non-trivial: non-zero area (points, outline); b and d strictly on opposite sides of a-c (pair). distinct = distinct op text."
     }
 
@@ -525,13 +546,33 @@ impl Module for M {
                 ));
             }
         }
+        if c19 {
+            // one-pixel outline with Inside / Outside alignment (after everything else, so that the
+            // random ops above are the same as before this stream existed): ALL ordered triples of
+            // the unit grid for Inside and Outside, every 4th of the stretched grid, random ones
+            grid_triples(g1, -(g1 / 2), -(g1 / 2), 1, 1, &mut |v| {
+                emit(format!("{} 0", op3("tri.outline_al", &v)));
+                emit(format!("{} 2", op3("tri.outline_al", &v)));
+            });
+            let mut n = 0u64;
+            grid_triples(g2, -5, -3, 3, 2, &mut |v| {
+                n += 1;
+                if n % 4 == 0 {
+                    emit(format!("{} {}", op3("tri.outline_al", &v), (n / 4) % 3));
+                }
+            });
+            for i in 0..no {
+                let v = random_triangle(rng);
+                emit(format!("{} {}", op3("tri.outline_al", &v), i % 3));
+            }
+        }
     }
 
     fn execute(&self, op: &str, ctx: &mut Ctx) -> String {
         let mut t = Toks::new(op);
         match t.str() {
             "tri.points" => exec_points(op, &mut t, ctx),
-            "tri.outline" => exec_outline(op, &mut t, ctx),
+            "tri.outline" | "tri.outline_al" => exec_outline(op, &mut t, ctx),
             "tri.pair" => exec_pair(op, &mut t, ctx),
             "tri.draw" => exec_draw(op, &mut t, ctx),
             _ => panic!("unknown op {}", op),
